@@ -24,6 +24,9 @@ theorem decide_idle {h : Host} {e : Ev} {lis : Listener} (hd : h.decide e = .ok 
     simp only [Host.decide] at hd
     repeat' split at hd
     all_goals cases hd
+  | qremove t d recs =>
+    simp only [Host.decide] at hd
+    cases hd
 
 theorem decide_defer {h : Host} {e : Ev} {lis : Listener} {d : Int} (hd : h.decide e = .ok (.defer lis d)) :
     ∃ (t : Int) (addr port dataId size : Nat) (hasQu : Bool) (p : Pkt) (seen : SeenMap) (draws : List Int) (lis1 : Listener),
@@ -48,6 +51,9 @@ theorem decide_defer {h : Host} {e : Ev} {lis : Listener} {d : Int} (hd : h.deci
     simp only [Host.decide] at hd
     repeat' split at hd
     all_goals cases hd
+  | qremove t d recs =>
+    simp only [Host.decide] at hd
+    cases hd
 
 theorem decide_answer {h : Host} {e : Ev} {lis : Listener} {pkts : List Pkt} {addr port : Nat}
     (hd : h.decide e = .ok (.answer lis pkts addr port)) :
@@ -75,6 +81,9 @@ theorem decide_answer {h : Host} {e : Ev} {lis : Listener} {pkts : List Pkt} {ad
     simp only [Host.decide] at hd
     repeat' split at hd
     all_goals cases hd
+  | qremove t d recs =>
+    simp only [Host.decide] at hd
+    cases hd
 
 theorem decide_ready {h : Host} {e : Ev} {d : Bool} (hd : h.decide e = .ok (.ready d)) : ∃ t, e = .qfire t d := by
   cases e with
@@ -91,6 +100,29 @@ theorem decide_ready {h : Host} {e : Ev} {d : Bool} (hd : h.decide e = .ok (.rea
     · simp [Host.decide, hq] at hd
       subst hd; exact ⟨t, rfl⟩
     · simp [Host.decide, hq] at hd
+  | qremove t d recs =>
+    simp only [Host.decide] at hd
+    cases hd
+
+theorem decide_remove {h : Host} {e : Ev} {d : Bool} {recs : List RecId} (hd : h.decide e = .ok (.remove d recs)) :
+    ∃ t, e = .qremove t d recs := by
+  cases e with
+  | rx t addr port dataId size hasQu kind seen draws =>
+    simp only [Host.decide] at hd
+    repeat' split at hd
+    all_goals cases hd
+  | tcfire t addr seen draws =>
+    simp only [Host.decide] at hd
+    repeat' split at hd
+    all_goals cases hd
+  | qfire t d' =>
+    simp only [Host.decide] at hd
+    repeat' split at hd
+    all_goals cases hd
+  | qremove t d' recs' =>
+    simp only [Host.decide] at hd
+    cases hd
+    exact ⟨t, rfl⟩
 
 /-! ### what `perform` returns -/
 
@@ -141,6 +173,23 @@ theorem perform_ready {h : Host} {t : Int} {seen : SeenMap} {draws : List Int} {
       cases hp
       refine ⟨rfl, (fun hh => nomatch hh), fun _ => ⟨rfl, rfl, ?_⟩⟩
       cases b <;> rfl
+
+theorem perform_remove {h : Host} {t : Int} {seen : SeenMap} {draws : List Int} {d : Bool} {recs : List RecId} {r : StepOut}
+    (hp : h.perform t seen draws (.remove d recs) = .ok r) :
+    r.outs = [] ∧ r.host.lis = h.lis ∧
+    (d = false → r.host.outQ = h.outQ.removeRecords recs ∧ r.host.delayQ = h.delayQ) ∧
+    (d = true → r.host.delayQ = h.delayQ.removeRecords recs ∧ r.host.outQ = h.outQ) := by
+  cases d
+  · simp only [Host.perform, Bool.false_eq_true, if_false] at hp
+    cases hp
+    refine ⟨rfl, rfl, ?_, ?_⟩
+    · intro _; exact ⟨rfl, rfl⟩
+    · intro hh; cases hh
+  · simp only [Host.perform, if_true] at hp
+    cases hp
+    refine ⟨rfl, rfl, ?_, ?_⟩
+    · intro hh; cases hh
+    · intro _; exact ⟨rfl, rfl⟩
 
 /-! ### the run-level invariant -/
 
